@@ -149,6 +149,15 @@ func GenConfig(prop string, g *Gen, tier string) Config {
 		// a configured KeyCompare that returns any negative/positive number, not just -1/+1
 		c.CmpScale = []int{2, 7, 1000}[g.Intn(3)]
 	}
+	if g.Intn(14) == 0 && prop != "C14" && prop != "C19" {
+		// registered types without example types: v1marshaler + JSON round-trips strings
+		c.NoLike = true
+		c.Marshaler = "json"
+		c.Format = FmtMarshaler
+		c.KeyD = "string"
+		c.ValD = "string"
+		c.Layers = nil
+	}
 	switch prop {
 	case "C01", "C10", "C06":
 		if g.Intn(16) == 0 {
@@ -197,6 +206,9 @@ func GenConfig(prop string, g *Gen, tier string) Config {
 			c.Layers = genLayers(g, c.U)
 		}
 	case "C15", "C16", "C13":
+		if prop == "C13" && g.Intn(5) == 0 {
+			c.Mirror = "file"
+		}
 		// big-tree profiles use cheap dialects
 		bigOdds := 10
 		if tier == "thorough" {
